@@ -43,7 +43,12 @@ func HarnessC16Lifecycle() {
 func c16Scenario() {
 	k := verifrt.Param("K", 16)
 	nEv := verifrt.Param("L", 2)
+	withPanic := verifrt.Param("PANIC", 0) == 1
 	out := make(chan midi.Event, 4)
+	if withPanic {
+		// the panic action emits 129 messages: a roomy output, so that none of its sends is a scheduling point
+		out = make(chan midi.Event, 512)
+	}
 	midiIn := make(chan midi.Event, 2)
 	d := NewDevice(input.Device{}, config.DeviceConfig{Config: c16Config()}, out, midiIn, true, 0, make(chan os.Signal, 1))
 	verifrt.Protect(d.noteTracker, d.eventProcessMutex)
@@ -70,9 +75,13 @@ func c16Scenario() {
 		held[which] = press
 		in <- keyEvent(codes[which], boolToVal(press))
 	}
+	if withPanic {
+		in <- keyEvent(evdev.KEY_ESC, EV_KEY_PRESS) // the panic action, then the stream ends
+	}
 	close(in)
 	finished := false
 	violated := false
+	emittedAtEnd := 0
 	if !verifrt.Symbolic() {
 		// native stand-in for the symbolic lock-discipline check: while this goroutine holds the device mutex (as
 		// the LED loop does for a whole refresh cycle) the playing state must not change
@@ -92,6 +101,7 @@ func c16Scenario() {
 	go func() {
 		verifrt.Jitter()
 		d.ProcessEvents(in)
+		emittedAtEnd = len(out)
 		finished = true
 	}()
 	if verifrt.Param("MIDIIN", 0) == 1 {
@@ -124,6 +134,11 @@ func c16Scenario() {
 		verifrt.Cover("C16: quiescent")
 		verifrt.Assert(finished, "C16: processing for a device ends once its event stream ends")
 		verifrt.Assert(!verifrt.Live("handleOpenrgb") && !verifrt.Live("handleInputEvents"), "C16: no background activity is left behind")
+		if withPanic {
+			verifrt.Assert(len(out) == emittedAtEnd, "C16: nothing is emitted after processing for the device has ended (no background activity left behind)")
+			verifrt.Assert(!verifrt.Live("Device)."), "C16: no goroutine is left inside device code after processing has ended")
+			return
+		}
 		// everything that was switched on has been switched off again
 		on := [2]int{}
 		for len(out) > 0 {
